@@ -10,7 +10,7 @@ for g in ${@:-$(ls $ROOT)}; do
   [ -f $d/patch.diff ] || continue
   git -C $WT checkout -q -- . ; git -C $WT clean -fdq
   if ! git -C $WT apply $d/patch.diff 2>/dev/null; then echo "$d APPLY_FAIL"; continue; fi
-  out=$(./bin/sfcheck -repo $WT -prop all -out /tmp/vout_refac 2>&1)
+  out=$(${BIN:-./bin/sfcheck} -repo $WT -prop all -out /tmp/vout_refac 2>&1)
   bad=$(echo "$out" | grep -E "^   (VIOLATION|UNDECIDED)|CHECK-BROKEN" | cut -c1-${WIDTH:-260})
   if [ -z "$bad" ]; then echo "$d silent"; else echo "$d FALSE-ALARM:"; echo "$bad" | head -8; fi
  done
